@@ -78,9 +78,12 @@ def _script_fn(step):
 
     def fn(fresh, params):
         flat = np.atleast_1d(fresh).astype(float).reshape(-1)
-        for s in slots:
-            if s < flat.size:
-                flat[s] = step['value']
+        if slots == 'all':
+            flat[:] = step['value']
+        else:
+            for s in slots:
+                if s < flat.size:
+                    flat[s] = step['value']
         if np.ndim(fresh) == 0:
             return flat[0]
         return flat.reshape(np.shape(fresh))
@@ -95,8 +98,12 @@ def prior_sample(ctx, pr, size=None, script=None, seed=0):
     p = build_expr(ctx, pr)
     sr = seams.SIMRANDOM
     sr.reset(seed)
-    sr.script = [dict(kind=s.get('kind', 'normal'), fn=_script_fn(s))
-                 for s in (script or [])]
+    steps = []
+    for s_ in (script or []):
+        steps.extend([s_] * int(s_.get('repeat', 1)))
+    sr.script = [dict(kind=s_.get('kind', 'normal'), fn=_script_fn(s_))
+                 for s_ in steps]
+    sr.MAX_CALLS = len(steps) + 400
     real = P.random
     P.random = sr
     sz = tuple(size) if isinstance(size, list) else size
